@@ -1289,9 +1289,50 @@ func c09DataReleases(r *Report, rule string) {
 				good = iv.Lo >= 1
 				why = fmt.Sprintf("Length %s is only known to be in %s here", exprStr(lv), iv)
 			}
+			// … and it is the number of bytes the store took: AddData's count itself, or a value a dominating branch
+			// found equal to it. The torrent trusts the event: a length larger than what was stored (a payload running
+			// past the end of a short last piece is stored only in part, without an error) walks the in-flight table
+			// past its end.
+			add := p.Func("tor/piece", "Pieces.AddData")
+			isStored := func(v ssa.Value) bool {
+				ex, ok := stripIntConv(v).(*ssa.Extract)
+				if !ok || ex.Index != 0 {
+					return false
+				}
+				c, ok := ex.Tuple.(*ssa.Call)
+				return ok && add != nil && c.Call.StaticCallee() == add
+			}
+			stored := lv != nil && isStored(lv)
+			if lv != nil && !stored {
+				for _, e := range eqFacts(mi.Block()) {
+					a, b := stripIntConv(e[0]), stripIntConv(e[1])
+					l := stripIntConv(lv)
+					if (isStored(a) && (b == l || sameConvOperand(b, l))) || (isStored(b) && (a == l || sameConvOperand(a, l))) {
+						stored = true
+					}
+				}
+			}
+			r.Check(stored, rule, fmt.Sprintf("%s/TorData-length-is-what-was-stored", fname(f)), mi.Pos(), "the length reported is the count AddData returned (itself, or tested equal to it)",
+				"a TorData event reports a Length that is not tied to the count Pieces.AddData returned: AddData stores only what fits the piece and reports no error for the rest, so a Piece message whose payload runs past the end of a short last piece is reported in full, and the torrent's handler — which bounds the range by the nominal piece size only — counts off blocks beyond the end of its in-flight table (index out of range in the torrent's goroutine)")
 			r.Check(good, rule, fmt.Sprintf("%s/TorData-length-positive", fname(f)), mi.Pos(), "the data event counts off at least one block",
 				"a TorData event can be reported with Length 0 ("+why+"): the request it stands for is gone from the sender's bookkeeping, but the torrent counts off ceil(0/16384) = 0 blocks — the block stays counted in flight for ever and, after maxInFlight such replies, is never requested again (a remote peer only has to answer requests with empty Piece messages)")
 		})
 	}
 	r.Sentinel(rule+".data-events", n, 2)
+}
+
+// sameConvOperand: a and b are conversions of one and the same value (uint32(length) written twice).
+func sameConvOperand(a, b ssa.Value) bool {
+	ca, ok1 := a.(*ssa.Convert)
+	cb, ok2 := b.(*ssa.Convert)
+	if ok1 && ok2 {
+		return ca.X == cb.X && types.Identical(ca.Type(), cb.Type())
+	}
+	if ok1 {
+		return ca.X == b
+	}
+	if ok2 {
+		return cb.X == a
+	}
+	return false
 }
